@@ -17,6 +17,7 @@ import (
 
 func init() {
 	register(&Workload{Prop: "C01", Variant: "mailbox", Horizon: time.Minute, MaxSteps: 30000, MaxG: 512, Spin: 500, PCTLen: 250, Race: true, Weight: 4, Body: c01Mailbox})
+	register(&Workload{Prop: "C01", Variant: "resume-race", Horizon: time.Minute, MaxSteps: 30000, MaxG: 512, Spin: 500, PCTLen: 150, Weight: 1, Body: c01ResumeRace})
 }
 
 type c01Env struct {
@@ -270,5 +271,64 @@ func c01Mailbox(r *R) {
 	}
 	if len(miss) > 0 && !r.Failed() {
 		r.Fail("C01/not-processed-after-resume", "after the final Resume envelopes %v were still not handled (paused=%v)", miss, st.mb.IsPaused())
+	}
+}
+
+// c01ResumeRace aims at the consumer's wind-down: in every round the mailbox is paused with one user envelope
+// pending, a system envelope makes a consumer run and leave again, and Resume() arrives from another goroutine at a
+// scheduler-chosen point of that wind-down. Nothing is enqueued afterwards, so a Resume that wakes nobody shows as a
+// user envelope that is never handled although the mailbox is not paused.
+func c01ResumeRace(r *R) {
+	st := &c01State{r: r, handled: map[int]int{}, all: map[int]*c01Env{}, selfPauseAt: -1, extPauseAt: -1}
+	st.mb = mailbox.NewUnboundedMailbox(int64(1+r.Choose(4)), st)
+	rounds := 3 + r.Choose(6)
+	r.Sample(map[string]any{"rounds": rounds})
+	for k := 0; k < rounds; k++ {
+		st.pause(false)
+		nUser := 1 + r.Choose(2)
+		withSystem := r.Chance(70)
+		var wg sync.WaitGroup
+		wg.Add(2)
+		vsimrt.Go("c01.rr-sender", func() {
+			defer wg.Done()
+			for i := 0; i < nUser; i++ {
+				st.mb.Enqueue(st.newEnv(false, 0))
+			}
+			if withSystem {
+				st.mb.Enqueue(st.newEnv(true, 0))
+			}
+		})
+		vsimrt.Go("c01.rr-resumer", func() {
+			defer wg.Done()
+			for i, n := 0, r.Choose(12); i < n; i++ {
+				vsimrt.Yield()
+			}
+			st.resume()
+		})
+		r.Waiting("round")
+		wg.Wait()
+		vsimrt.Yield()
+		vsimrt.Settle()
+		if r.Failed() {
+			return
+		}
+		st.mu.Lock()
+		var miss []int
+		for id := range st.all {
+			if st.handled[id] == 0 {
+				miss = append(miss, id)
+			}
+		}
+		st.mu.Unlock()
+		sort.Ints(miss)
+		if len(miss) > 0 {
+			cls := "C01/lost-wakeup"
+			if st.mb.IsPaused() {
+				cls = "C01/harness"
+			}
+			r.Fail(cls, "round %d: Resume() returned, the mailbox is not paused, nothing else is running, but envelopes %v were never handled", k, miss)
+			return
+		}
+		r.Count("resume-race-round")
 	}
 }
